@@ -36,6 +36,7 @@ type Exec struct {
 	counters  []*TrackClause
 	unsupported []string
 	inSpec bool
+	assumeNil bool
 	inlinedInLoop bool
 	specErrors []string
 	usedModels map[string]bool
@@ -77,6 +78,11 @@ func (x *Exec) assume(st *State, fact Term) {
 
 func (x *Exec) oblige(fr *Frame, st *State, kind, detail, desc string, pos token.Pos, goal Term, props []string) {
 	if goal.IsTrue() || st.pc.IsFalse() {
+		return
+	}
+	if kind == "nil" && x.assumeNil {
+		x.vc.assumption("pointer/interface well-formedness (non-nil receivers and fields) assumed in functions without contract")
+		x.assume(st, goal)
 		return
 	}
 	name := fr.prefix + kind + ":" + detail
@@ -321,6 +327,11 @@ func (x *Exec) execFunction(fr *Frame, st *State) (*State, []Value) {
 			phi, ok := in.(*ssa.Phi)
 			if !ok {
 				break
+			}
+			if fr.loops[b] != nil {
+				// loop header: the value of an arbitrary iteration
+				fr.regs[phi] = x.fresh(phi.Type(), "lphi."+phi.Comment)
+				continue
 			}
 			fr.regs[phi] = x.phiValue(fr, phi, b, edges)
 		}
@@ -596,6 +607,46 @@ func (x *Exec) loopWrites(fr *Frame, li *loopInfo) (cells map[*ssa.Alloc]bool, k
 	return
 }
 
+// monotoneCells finds integer cells whose every store inside the loop is `cell = cell ± const`
+// with one sign (e.g. range indices); the direction is returned.
+func monotoneCells(li *loopInfo) map[*ssa.Alloc]int {
+	dir := map[*ssa.Alloc]int{}
+	bad := map[*ssa.Alloc]bool{}
+	for b := range li.body {
+		for _, in := range b.Instrs {
+			st, ok := in.(*ssa.Store)
+			if !ok {
+				continue
+			}
+			c, ok := st.Addr.(*ssa.Alloc)
+			if !ok {
+				continue
+			}
+			d := 0
+			if bo, ok := st.Val.(*ssa.BinOp); ok && (bo.Op == token.ADD || bo.Op == token.SUB) {
+				if ld, ok := bo.X.(*ssa.UnOp); ok && ld.Op == token.MUL && ld.X == ssa.Value(c) {
+					if k, ok := bo.Y.(*ssa.Const); ok && k.Value != nil && kindOf(k.Type()) == KInt {
+						if v := k.Int64(); v > 0 {
+							d = 1
+							if bo.Op == token.SUB {
+								d = -1
+							}
+						}
+					}
+				}
+			}
+			if d == 0 || (dir[c] != 0 && dir[c] != d) {
+				bad[c] = true
+			}
+			dir[c] = d
+		}
+	}
+	for c := range bad {
+		delete(dir, c)
+	}
+	return dir
+}
+
 func (x *Exec) enterLoop(fr *Frame, li *loopInfo, st *State) {
 	// 1. invariant on entry
 	for i, c := range li.inv {
@@ -615,9 +666,23 @@ func (x *Exec) enterLoop(fr *Frame, li *loopInfo, st *State) {
 		cs = append(cs, c)
 	}
 	sort.Slice(cs, func(i, j int) bool { return cs[i].Pos() < cs[j].Pos() || (cs[i].Pos() == cs[j].Pos() && cs[i].Name() < cs[j].Name()) })
+	mono := monotoneCells(li)
 	for _, c := range cs {
-		if _, ok := st.cells[c]; ok {
-			st.cells[c] = x.fresh(c.Type().(*types.Pointer).Elem(), "lp."+c.Comment)
+		if old, ok := st.cells[c]; ok {
+			nv := x.fresh(c.Type().(*types.Pointer).Elem(), "lp."+c.Comment)
+			st.cells[c] = nv
+			// inferred invariant: cells only ever incremented (decremented) by positive constants
+			if dir, ok := mono[c]; ok {
+				if ot, ok1 := old.(VTerm); ok1 {
+					if nt, ok2 := nv.(VTerm); ok2 && ot.T.Sort == SInt {
+						if dir > 0 {
+							x.assume(st, Ge(nt.T, ot.T))
+						} else {
+							x.assume(st, Le(nt.T, ot.T))
+						}
+					}
+				}
+			}
 		}
 	}
 	// 3. assume invariant
